@@ -427,6 +427,13 @@ func b2s(b bool) string {
 // ---------------------------------------------------------------------------------------------
 // cindex: real TsIndexer vs the CIndex model (OnWrite, look-ups, hull) + updatePoss window through the real index
 
+// lateNote: an OnWrite notification held back in the cindex section
+type lateNote struct {
+	first, last uint32
+	cid         int
+	lo, hi      int64
+}
+
 func sectionCIndex(rng *vh.Rng) {
 	sec := res.Section("cindex", "unit-correspondence",
 		"the real tmindex.TsIndexer (own directory, exported API) fed with OnWrite sequences: batch sizes from {1,5,100,249,250,251,300,600,5001,5200} and random, chunk changes, first records > 0, monotone / jittered / zero and negative hulls; after every write 6 probes: GetPosForGreaterOrEqualTime, GetPosForLessTime, GetRecordsInfo and the updatePoss window for a range around the probe vs the Lean CIndex + Selector models; non-trivial = every write, distinct by its parameters")
@@ -473,6 +480,7 @@ func sectionCIndex(rng *vh.Rng) {
 				pos = uint32(rnd.Intn(3))
 			}
 			mode := trial % 4
+			var pending *lateNote
 			nb := 20 + rnd.Intn(150)
 			for b := 0; b < nb; b++ {
 				cnt := uint32(rnd.PickI([]int{1, 5, 100, 249, 250, 251, 300, 600, 5001, 5200}))
@@ -496,7 +504,26 @@ func sectionCIndex(rng *vh.Rng) {
 				if rnd.Intn(4) == 0 {
 					hi = lo
 				}
+				deliver := func(first, last uint32, c int, lo, hi int64, late bool) {
+					err := ti.OnWrite(src, first, last, tmindex.RecordsInfo{Id: chunk.Id(c), MinTs: lo, MaxTs: hi})
+					exp := "ok"
+					if e := errName(err); e != "" {
+						exp = e
+					}
+					line := fmt.Sprintf("ci.write %d %d %d %d %d", first, last, c, lo, hi)
+					res.Eval(sec, line)
+					if late {
+						res.Dist(sec, "write-late:"+exp)
+					} else {
+						res.Dist(sec, "write:"+exp)
+					}
+					add(line, exp, "cindex.onWrite")
+				}
 				if rnd.Intn(25) == 0 {
+					if pending != nil {
+						deliver(pending.first, pending.last, pending.cid, pending.lo, pending.hi, true)
+						pending = nil
+					}
 					cid++
 					pos = 0
 					if rnd.Intn(5) == 0 {
@@ -504,15 +531,17 @@ func sectionCIndex(rng *vh.Rng) {
 					}
 				}
 				first, last := pos, pos+cnt-1
-				err := ti.OnWrite(src, first, last, tmindex.RecordsInfo{Id: chunk.Id(cid), MinTs: lo, MaxTs: hi})
-				exp := "ok"
-				if e := errName(err); e != "" {
-					exp = e
+				if trial%5 == 4 && pending == nil && pos > 0 && rnd.Intn(5) == 0 {
+					// a notification that is overtaken by the ones of later batches (the index-level view of concurrent
+					// writers): held back now, delivered after one or more later notifications of the same chunk
+					pending = &lateNote{first, last, cid, lo, hi}
+				} else {
+					deliver(first, last, cid, lo, hi, false)
+					if pending != nil && rnd.Intn(2) == 0 {
+						deliver(pending.first, pending.last, pending.cid, pending.lo, pending.hi, true)
+						pending = nil
+					}
 				}
-				line := fmt.Sprintf("ci.write %d %d %d %d %d", first, last, cid, lo, hi)
-				res.Eval(sec, line)
-				res.Dist(sec, "write:"+exp)
-				add(line, exp, "cindex.onWrite")
 				pos += cnt
 				if hi > ts {
 					ts = hi
